@@ -97,6 +97,7 @@ class World:
         self.idle_ctx = CallCtx(-1, 0, -1, "<idle>")
         self.ncalls = 0
         self.sched = None       # thread scheduler (C08)
+        self.second_caller = None   # installed by the engine: runs the calls of a "yield" fault as another caller
         self.tls = bool(spec.get("tls"))
         self.expect_timeouts = None  # (connect_timeout, timeout) or None = unchecked
         self.net = SimNet(self)
@@ -163,6 +164,23 @@ class World:
                 sock.conn.fault_calls.add(ctx.id)
             if f["kind"] == "interrupt":
                 ctx.interrupt_seen = True
+            if f["kind"] == "yield":
+                # the caller is parked inside this socket call while a second caller (another thread of the
+                # application) runs the calls listed in the fault to completion on the same client object; then the
+                # socket call goes on - or fails with the fault given as "then"
+                if self.second_caller is not None:
+                    prev = self.cur_tid
+                    self.cur_tid = prev + 1
+                    try:
+                        self.second_caller(f)
+                    finally:
+                        self.cur_tid = prev
+                f = f.get("then")
+                if f is not None:
+                    ctx.fired.append((kind, n, f["kind"], sid))
+                    self.stats["fault:" + f["kind"]] += 1
+                    if sock is not None and sock.conn is not None:
+                        sock.conn.fault_calls.add(ctx.id)
         return f
 
     def health_fault(self, sock, kind):
